@@ -52,7 +52,7 @@ func ParseMediaType(s string) (MediaType, error) {
 	}
 	values = strings.Split(values[0], "/")
 
-	if len(values) == 1 {
+	if len(values) == 1 || values[0] == "" || values[1] == "" {
 		return MediaType{}, errors.New("invalid media type")
 	}
 
